@@ -272,16 +272,8 @@ Qed.
 (* the count the property asks for: the number of devices behind the interface *)
 Definition units_spec (b : bdf_t) : Z := match b with BList l => Z.of_nat (List.length l) | _ => 1 end.
 
-Theorem units_partial : forall b, (forall s, b <> BStr s) -> units_of b = units_spec b.
-Proof. intros [|s|l] H; simpl; try reflexivity. exfalso. apply (H s). reflexivity. Qed.
-
-Theorem units_scalar_bdf_refuted :
-  exists name ct p lb i, gen_iface name ct p 0 None (Some [lb]) = Ok i /\ lab_bdf lb = BStr (S"0000:25:00.0") /\
-                         if_unit i = 12 /\ units_spec (lab_bdf lb) = 1.
-Proof.
-  exists (S"nic1"), (Some (S"SmartNIC")), (S"p1", 100), {| lab_bdf := BStr (S"0000:25:00.0"); lab_tag := 0%N |}.
-  eexists. split; [reflexivity|]. split; [reflexivity|]. split; reflexivity.
-Qed.
+Theorem units_all : forall b, units_of b = units_spec b.
+Proof. intros [|s|l]; reflexivity. Qed.
 
 (* ---------- the combined type-model enumeration ---------- *)
 Fixpoint expected_members_from (i : nat) (cat : list comp_entry) : list (str * N * option comp_entry) :=
